@@ -3,6 +3,13 @@
 correspondence: every AlignmentMill method + blockwise_expand/contract against the Lean model
 (Model/Mill.lean, run exactly at K = Rat on the very doubles the implementation received);
 oracle: analytic pair energies / a pair vector field in numpy floats (independent of the model).
+
+Two kinds of streams:
+  * single-call scenarios ("mill", "blk"): one recipe, one system, every method once, judged at once;
+  * call sequences ("seq"): several recipes and systems alive in one process, all eight entry points
+    (the six align_* methods, reverse transform, align_system, align_mini_system) called in a generated
+    order, the same values handed over in every memory layout numpy has for them, argument buffers
+    refilled and reused, results held (or overwritten by the caller) and judged when the sequence is over.
 """
 from __future__ import annotations
 
@@ -62,12 +69,16 @@ TRUSTED_BASE = [
     "Mathlib's real analysis (Frechet derivative HasFDerivAt/fderiv, chain rule, ContDiffAt, Real.sqrt) for Props/C13Calculus.lean: the step from the algebra to 'gradient/Hessian covariance for EVERY invariant energy' is now PROVED over R (gradient_covariance, hessian_covariance, vector_gradient_covariance) and is no longer in the trusted base; what 'gradient' and 'Hessian' mean there is fixed by the definitions grad/hess/vecGrad (fderiv applied to the unit vectors e_(i,a), rows 3i+a) in Lemmas/MillCalculus.lean, which are tied to explicit formulas for the polynomial family (grad_energy_eq_gradE, hess_energy_eq_hessE)",
     "reading of 'invariant energy' (stated in Props/C13Calculus.lean): the aligned, relabelled system has its own energy E' (per-atom parameters permuted by the atom map) with E'(align y) = E(y) near x; proved to hold for every function of the interatomic distances and every pair potential (Coulomb, harmonic), an assumption for other energies; the theorems are over the real numbers whereas the implementation computes in IEEE doubles (numerical agreement is the oracle's job, not the theorems')",
     "harness/c13.py generators and the numpy oracle (analytic first/second derivatives of pair potentials, validated against finite differences during development)",
+    "numpy's memory-layout machinery used by the harness to present the same values differently (order='F', slicing with steps, flags.writeable, np.may_share_memory) and bitwise array comparison (NaN-aware) for the 'argument untouched' / 'held result untouched' clauses",
 ]
 ASSUMPTIONS = [
     "recipes inside the quantifier only: rotation orthogonal (proper, from quaternions), atommap a permutation of 1-10 atoms, shift (3,), mirror on/off; out-of-range / negative / repeated atommap entries are not generated",
     "square (3n,3n) C-contiguous float Hessians; blockwise_expand only for 2-D arrays whose shape the block shape divides, aslist=False (the call align_hessian makes)",
     "vector / vector-gradient covariance is demanded for mirror=False only (as the property says); with mirror=True those two methods are only tied to the model",
-    "reverse=True coordinate transform: modelled, tied, proved an isometry; the property makes no covariance claim about it",
+    "reverse=True coordinate transform: modelled, tied, proved an isometry; the property makes no covariance claim about it (in call sequences it is only required to be a function of its input values and to leave arguments and earlier results alone)",
+    "argument representations explored: float64 ndarrays that are C-ordered, Fortran-ordered, strided views, negative-stride views, read-only, or C-contiguous windows of a larger buffer; (3,3n) vector derivatives also as three separate component arrays; per-atom arrays of int / float / str dtype in the 1-D layouts; recipe fields given as C / Fortran / strided arrays, flat (9,) or (1,3) shapes, lists, int32/int64 atom maps. Not generated: float32 / integer / non-native-byte-order geometries, nested lists where the code calls ndarray methods (align_vector, align_atoms, align_hessian), Hessians that are not C-contiguous (blockwise_expand asserts)",
+    "call sequences are single-threaded, one process, at most 3 recipes x 5 systems x ~100 calls; state that survives longer than one sequence is exercised only in so far as later sequences (same process) are judged by the same oracle",
+    "align_system / align_mini_system are tied componentwise to alignCoords / alignAtoms of the model (no separate model function)",
 ]
 RULE = (
     "a scenario = (recipe: integer-quaternion or float-quaternion rotation, shift, permutation of n=1..10 atoms, mirror) x (geometry with "
@@ -75,7 +86,14 @@ RULE = (
     "random non-symmetric gradient/Hessian/vector-derivative arrays); each scenario is pushed through all six AlignmentMill methods (+reverse) and the "
     "model; a 'dyadic' sub-stream (signed-permutation rotations, few-bit coordinates) is compared exactly. Separate blockwise scenarios: random "
     "(gr,gc,lr,lc) up to 6x6 blocks of up to 5x5. Distinct by (n, permutation, mirror, rotation, kind); non-trivial when the permutation is not the "
-    "identity or mirror is on or the rotation is not the identity."
+    "identity or mirror is on or the rotation is not the identity. Call sequences ('seq'): 1-3 recipes (fields handed over as C/F/strided arrays, flat or row "
+    "shapes, lists, int32/int64 maps) x 2-5 systems (fresh ones and displaced copies sharing the couplings, mostly of one size so that shapes collide) x 6-20 calls drawn "
+    "from align_coordinates (forward/reverse), align_gradient, align_hessian, align_vector, align_vector_gradient, align_atoms (int/float/str), align_system, "
+    "align_mini_system, shuffled, half of the sequences with one method swept over all systems in a row; every call picks a memory layout for its argument (C, F, strided, "
+    "negative strides, read-only, window of a larger buffer, three separate rows), may refill and reuse the buffer of an earlier call, and its result is either held "
+    "untouched or overwritten by the caller. Per seed 4 enumerated sequences (mirror off/on x dyadic/general) call every method in every layout it accepts twice, "
+    "rotating over 4 systems and 2 recipes, all results held. All clauses are evaluated only after the last call on what the caller then holds; a failing sequence is "
+    "shrunk (ddmin over the calls, then layouts/reuse/overwrite relaxed) and the replay carries both the short and the generated sequence."
 )
 LEVEL_TEXT = (
     "proof: all algebraic clauses (affine map, J orthogonal action, pairing and Hessian bilinear form preserved, blocking lossless, same atom map, "
@@ -85,7 +103,10 @@ LEVEL_TEXT = (
     "geometry equal align_gradient / align_hessian of those at x (mirror on and off), likewise the nuclear derivatives of every equivariant vector field (mirror off); "
     "specialised, with the invariance hypothesis discharged, to all C^2 functions of the interatomic distances, all pair potentials with C^2 pair functions and "
     "(no analytic hypothesis left) the Coulomb + harmonic energies at non-coincident geometries. partial: the model is tied to the code by sampling (differential correspondence), and the theorems speak about exact real "
-    "arithmetic, not about floating-point rounding."
+    "arithmetic, not about floating-point rounding. Outside the model (sampled by the oracle only, no theorem): that the Python methods are functions of the VALUES of "
+    "their arguments - independent of memory layout, of what was called before, of which recipe objects exist - and that they neither write to their arguments nor "
+    "to arrays they returned earlier; the Lean model is a pure function of values, so these are exactly the hypotheses under which the theorems transfer to a program "
+    "that makes more than one call."
 )
 TECHNIQUE = "Lean 4 proof over a generic commutative ring of a core-Lean model + Lean 4/Mathlib proof over the reals (Frechet derivative) of the covariance of every invariant energy + exact-rational differential correspondence + analytic-energy oracle"
 
@@ -541,6 +562,568 @@ def oracle_blk(out: Outcome, s, a, b, res):
                 V("oracle:blockwise_roundtrip", again.tolist(), b.tolist(), "expand(contract(b)) != b")
     except Exception as e:  # noqa
         V("oracle:raises", "err " + err_class(e), "array", "blockwise round trip raised")
+        return
+    # the same blocked / unblocked values in the other memory layouts: same reordering, nothing written to the argument
+    c = res["bcon"]
+    if not isinstance(c, tuple):
+        for layout in ("F", "strided", "neg", "readonly", "subview"):
+            arg, back = lay(b, layout)
+            snap = snapshot(back)
+            try:
+                c2 = np.array(blockwise_contract(arg))
+            except Exception as e:  # noqa
+                V("oracle:raises", "err " + err_class(e), "array", f"blockwise_contract raised on a {layout} 4-D array")
+                continue
+            if c2.shape != c.shape or not np.array_equal(c2, c):
+                V("oracle:blockwise_roundtrip", c2.tolist(), np.asarray(c).tolist(), f"blockwise_contract of the same blocks held in a {layout} array is a different 2-D array (expand(contract(b)) != b)")
+            if not same_bits(back, snap):
+                V("oracle:argument_mutated", layout, "unchanged", "blockwise_contract wrote to its argument")
+    for layout in ("readonly", "subview"):  # blockwise_expand takes C-contiguous arrays only
+        arg, back = lay(a, layout)
+        snap = snapshot(back)
+        try:
+            v2 = np.array(blockwise_expand(arg, (lr, lc), False))
+        except Exception as e:  # noqa
+            V("oracle:raises", "err " + err_class(e), "view", f"blockwise_expand raised on a C-contiguous {layout} array")
+            continue
+        if v2.shape != v.shape or not np.array_equal(v2, v):
+            V("oracle:blockwise_blocks", v2.tolist(), np.asarray(v).tolist(), f"blockwise_expand of the same values held in a {layout} C-contiguous array gives other blocks")
+        if not same_bits(back, snap):
+            V("oracle:argument_mutated", layout, "unchanged", "blockwise_expand wrote to its argument")
+
+
+# --------------------------------------------------------------------------------------
+# call sequences: several recipes and several systems in one process, calls interleaved in a generated order,
+# arguments in every memory layout numpy offers for the same values, argument buffers refilled and reused,
+# results held (or handed to a caller that overwrites them) and judged only when the whole sequence is over
+
+ENERGY_NAMES = ("coulomb", "harmonic", "poly")
+LAYOUTS = {
+    # (n,3) geometries / gradients and (3,3n) vector derivatives: anything numpy can hold the values in
+    "coords": ["C", "F", "strided", "neg", "readonly", "subview"],
+    "coordsR": ["C", "F", "strided", "neg", "readonly", "subview"],
+    "grad": ["C", "F", "strided", "neg", "readonly", "subview"],
+    # align_hessian -> blockwise_expand accepts C-contiguous arrays only (ASSUMPTIONS)
+    "hess": ["C", "readonly", "subview"],
+    "vec": ["C", "strided", "neg", "readonly", "subview"],
+    "vecgrad": ["C", "F", "strided", "neg", "readonly", "subview", "rows"],
+    "atoms": ["C", "strided", "neg", "readonly", "subview"],
+    "system": ["C", "F", "strided", "neg", "readonly", "subview"],
+    "minisystem": ["C", "F", "strided", "neg", "readonly", "subview"],
+}
+SEQ_OPS = ["coords", "coords", "coords", "coordsR", "grad", "grad", "grad", "hess", "hess", "vec", "vec", "vecgrad", "vecgrad", "vecgrad", "atoms", "system", "minisystem"]
+ROT_FORMS = ["C", "F", "strided", "flat", "list"]
+SHIFT_FORMS = ["C", "strided", "row", "list"]
+MAP_FORMS = ["i64", "i32", "strided", "list"]
+ATOM_DTYPES = ["int", "float", "str"]
+
+
+def _pad_for(v):
+    if v.dtype.kind == "f":
+        return np.nan
+    if v.dtype.kind in "iu":
+        return -999
+    return "~"
+
+
+def lay(values, layout):
+    """the same values in another memory layout; returns (argument, backing buffer whose every cell is checked for writes)"""
+    v = np.array(values)
+    sl_rev = tuple(slice(None, None, -1) for _ in v.shape)
+    if layout == "C":
+        a = np.array(v, order="C", copy=True)
+        return a, a
+    if layout == "F":
+        a = np.array(v, order="F", copy=True)
+        return a, a
+    if layout == "strided":
+        big = np.full(tuple(2 * d + 1 for d in v.shape), _pad_for(v), dtype=v.dtype)
+        a = big[tuple(slice(1, None, 2) for _ in v.shape)]
+        a[...] = v
+        return a, big
+    if layout == "neg":
+        big = np.array(v[sl_rev], order="C", copy=True)
+        return big[sl_rev], big
+    if layout == "readonly":
+        a = np.array(v, order="C", copy=True)
+        a.flags.writeable = False
+        return a, a
+    if layout == "subview":
+        big = np.full(v.size + 7, _pad_for(v), dtype=v.dtype)
+        a = big[4 : 4 + v.size].reshape(v.shape)
+        a[...] = v
+        return a, big
+    if layout == "rows":  # three separate component arrays (align_vector_gradient unpacks mu_x, mu_y, mu_z)
+        rows = tuple(np.array(r, order="C", copy=True) for r in v)
+        return rows, rows
+    raise ValueError(layout)
+
+
+def same_bits(a, b) -> bool:
+    if isinstance(a, tuple):
+        return isinstance(b, tuple) and len(a) == len(b) and all(same_bits(x, y) for x, y in zip(a, b))
+    a, b = np.asarray(a), np.asarray(b)
+    if a.shape != b.shape or a.dtype.kind != b.dtype.kind:
+        return False
+    if a.dtype.kind == "f":
+        return bool(np.array_equal(a, b, equal_nan=True))
+    return bool(np.array_equal(a, b))
+
+
+def snapshot(back):
+    return tuple(np.array(r, copy=True) for r in back) if isinstance(back, tuple) else np.array(back, copy=True)
+
+
+def mill_build(m):
+    """construct the AlignmentMill of one recipe, its fields handed over in the recorded form (same values)"""
+    from qcelemental.models import AlignmentMill
+
+    rot = np.array(m["rot"], dtype=float)
+    shift = np.array(m["shift"], dtype=float)
+    amap = [int(i) for i in m["map"]]
+    rf, sf, mf = m.get("rot_form", "C"), m.get("shift_form", "C"), m.get("map_form", "i64")
+    if rf == "F":
+        rot = np.asfortranarray(rot)
+    elif rf == "strided":
+        rot = lay(rot, "strided")[0]
+    elif rf == "flat":
+        rot = rot.reshape(9)
+    elif rf == "list":
+        rot = rot.tolist()
+    if sf == "strided":
+        shift = lay(shift, "strided")[0]
+    elif sf == "row":
+        shift = shift.reshape(1, 3)
+    elif sf == "list":
+        shift = shift.tolist()
+    if mf == "i64":
+        amap = np.array(amap, dtype=np.int64)
+    elif mf == "i32":
+        amap = np.array(amap, dtype=np.int32)
+    elif mf == "strided":
+        amap = lay(np.array(amap, dtype=np.int64), "strided")[0]
+    return AlignmentMill(shift=shift, rotation=rot, atommap=amap, mirror=bool(m["mirror"]))
+
+
+def atoms_values(sysd, dtype):
+    ats = [int(a) for a in sysd["atoms"]]
+    if dtype == "float":
+        return np.array([a + 0.25 for a in ats], dtype=float)
+    if dtype == "str":
+        return np.array([f"L{a}_{i}" for i, a in enumerate(ats)])
+    return np.array(ats, dtype=int)
+
+
+def gen_seq(rng, n=None, dyadic=None, sweep_all=False, mirror=None):
+    """one call sequence: 1-3 recipes, 2-5 systems (several of them displaced copies of one another, as in a
+    finite-difference loop), 6-20 calls in a generated order"""
+    if dyadic is None:
+        dyadic = rng.random() < 0.25
+    if n is None:
+        n = rng.choice([1, 2, 2, 3, 3, 3, 4, 4, 5, 6, 7, 8, 10])
+    nm = 2 if sweep_all else rng.choice([1, 1, 2, 2, 3])
+    mills, systems = [], []
+    for i in range(nm):
+        ni = n if (i == 0 or rng.random() < 0.7) else rng.choice([1, 2, 3, 4, 5])
+        g = gen_scenario(rng, n=ni, dyadic=dyadic)
+        m = {k: g[k] for k in ("n", "mirror", "shift", "rot", "map", "rotkind")}
+        if mirror is not None:
+            m["mirror"] = mirror if i == 0 else (not mirror)
+        m["rot_form"], m["shift_form"], m["map_form"] = rng.choice(ROT_FORMS), rng.choice(SHIFT_FORMS), rng.choice(MAP_FORMS)
+        mills.append(m)
+    ns = 4 if sweep_all else rng.randint(2, 5)
+    for j in range(ns):
+        mi = (j % nm) if (sweep_all or j < nm) else rng.randrange(nm)
+        base = [t for t in systems if t["mill"] == mi]
+        if base and rng.random() < 0.6:
+            # a displaced copy: same couplings, geometry moved a little
+            t = json.loads(json.dumps(base[0]))
+            step = 0.125 if dyadic else 0.05
+            t["geom"] = [[c + (rng.randint(-1, 1) * step if dyadic else rng.uniform(-step, step)) for c in row] for row in t["geom"]]
+        else:
+            g = gen_scenario(rng, n=mills[mi]["n"], dyadic=dyadic)
+            t = {k: g[k] for k in ("n", "geom", "Q", "Kh", "R0", "Kp", "Cp", "W", "atoms")}
+        t["mill"] = mi
+        systems.append(t)
+
+    def call(op, k, layout=None, then=None):
+        c = {"op": op, "sys": k, "layout": layout or rng.choice(LAYOUTS[op]), "reuse": rng.random() < 0.4,
+             "then": then or ("hold" if rng.random() < 0.7 else "scribble")}
+        if op in ("grad", "hess"):
+            c["energy"] = rng.choice(ENERGY_NAMES)
+        if op == "atoms":
+            c["dtype"] = rng.choice(ATOM_DTYPES)
+        if op in ("system", "minisystem"):
+            c["reverse"] = rng.random() < 0.3
+            c["alayout"] = rng.choice(LAYOUTS["atoms"])
+        return c
+
+    calls = []
+    if sweep_all:
+        # every method x every layout it accepts, rotating over the systems, everything held
+        k = 0
+        for op in LAYOUTS:
+            for layout in LAYOUTS[op]:
+                for _ in range(2):
+                    c = call(op, k % ns, layout, "hold")
+                    if op in ("system", "minisystem"):
+                        c["reverse"] = False
+                    calls.append(c)
+                    k += 1
+        rng.shuffle(calls)
+    else:
+        for k in range(ns):  # every system gets an aligned geometry to evaluate the test energies at
+            c = call(rng.choice(["coords", "coords", "system", "minisystem"]), k)
+            if "reverse" in c:
+                c["reverse"] = False
+            calls.append(c)
+        for _ in range(rng.randint(4, 12)):
+            calls.append(call(rng.choice(SEQ_OPS), rng.randrange(ns)))
+        if rng.random() < 0.5:  # one method over all the systems in a row, results collected (a displacement loop)
+            op = rng.choice(["coords", "grad", "hess", "vec", "vecgrad", "atoms"])
+            sweep = [call(op, k, then="hold") for k in range(ns)]
+            lay0 = rng.choice(LAYOUTS[op])
+            if rng.random() < 0.5:
+                for c in sweep:
+                    c["layout"] = lay0
+            rng.shuffle(calls)
+            at = rng.randint(0, len(calls))
+            calls = calls[:at] + sweep + calls[at:]
+        else:
+            rng.shuffle(calls)
+    return {"type": "seq", "dyadic": bool(dyadic), "mills": mills, "systems": systems, "calls": calls}
+
+
+def seq_values(s, c, phys):
+    """pristine argument values of one call (list of arrays) — phys[k] = (x, E, (mu, dmu))"""
+    k = c["sys"]
+    sysd = s["systems"][k]
+    x, E, (mu, dmu) = phys[k]
+    op = c["op"]
+    if op in ("coords", "coordsR"):
+        return [x]
+    if op == "grad":
+        return [E[c["energy"]][0]]
+    if op == "hess":
+        return [E[c["energy"]][1]]
+    if op == "vec":
+        return [mu]
+    if op == "vecgrad":
+        return [dmu]
+    if op == "atoms":
+        return [atoms_values(sysd, c.get("dtype", "int"))]
+    if op == "system":
+        return [x, atoms_values(sysd, "float"), atoms_values(sysd, "str"), atoms_values(sysd, "int"), atoms_values(sysd, "str")]
+    if op == "minisystem":
+        return [x, atoms_values(sysd, "str")]
+    raise ValueError(op)
+
+
+def run_seq(s):
+    """Execute the sequence on the implementation. Returns (phys, records); a record holds the pristine argument values, the result as
+    it was when it was returned (copy) and the very objects that were returned (looked at again when the sequence is over)."""
+    mills = [mill_build(m) for m in s["mills"]]
+    phys = []
+    for t in s["systems"]:
+        x = np.array(t["geom"], dtype=float)
+        phys.append((x, energies(t, x), field(t, x)))
+    bufs = {}
+    recs = []
+    for ci, c in enumerate(s["calls"]):
+        t = s["systems"][c["sys"]]
+        mill = mills[t["mill"]]
+        op = c["op"]
+        vals = seq_values(s, c, phys)
+        args, backs = [], []
+        for ai, v in enumerate(vals):
+            layout = c["layout"] if ai == 0 else c.get("alayout", "C")
+            key = (op, ai, v.shape, v.dtype.str, layout)
+            if c.get("reuse") and layout not in ("readonly", "rows") and key in bufs:
+                a, b = bufs[key]  # the caller refills the buffer it used for an earlier call
+                a[...] = v
+            else:
+                a, b = lay(v, layout)
+                bufs[key] = (a, b)
+            args.append(a)
+            backs.append(b)
+        snaps = [snapshot(b) for b in backs]
+        rec = {"ci": ci, "call": c, "vals": vals, "err": None, "parts": None, "copies": None, "arg_mutated": None, "aliases_arg": False}
+        try:
+            if op == "coords":
+                r = mill.align_coordinates(args[0])
+            elif op == "coordsR":
+                r = mill.align_coordinates(args[0], reverse=True)
+            elif op == "grad":
+                r = mill.align_gradient(args[0])
+            elif op == "hess":
+                r = mill.align_hessian(args[0])
+            elif op == "vec":
+                r = mill.align_vector(args[0])
+            elif op == "vecgrad":
+                r = mill.align_vector_gradient(args[0])
+            elif op == "atoms":
+                r = mill.align_atoms(args[0])
+            elif op == "system":
+                r = mill.align_system(*args, reverse=bool(c.get("reverse")))
+            else:
+                r = mill.align_mini_system(*args, reverse=bool(c.get("reverse")))
+            parts = tuple(r) if isinstance(r, tuple) else (r,)
+            parts = tuple(np.asarray(p) for p in parts)  # asarray of an ndarray is that very object
+            rec["parts"] = parts
+            rec["copies"] = tuple(np.array(p, copy=True) for p in parts)
+            flat_backs = [r for b in backs for r in (b if isinstance(b, tuple) else (b,))]
+            rec["aliases_arg"] = any(np.may_share_memory(p, b) for p in parts for b in flat_backs)
+        except Exception as e:  # noqa
+            rec["err"] = err_class(e)
+        for ai, (b, sn) in enumerate(zip(backs, snaps)):
+            if not same_bits(b, sn):
+                rec["arg_mutated"] = ai
+                # put the values back so that what follows is judged on the values the caller meant
+                if c["layout" if ai == 0 else "alayout"] not in ("readonly", "rows"):
+                    try:
+                        args[ai][...] = vals[ai]
+                    except Exception:  # noqa
+                        pass
+        if rec["parts"] is not None and c.get("then") == "scribble":
+            # the caller owns what it got back and overwrites it (e.g. accumulates in place); nothing else may change by that
+            for p in rec["parts"]:
+                if isinstance(p, np.ndarray) and p.flags.writeable and p.size:
+                    p[...] = _pad_for(p)
+        recs.append(rec)
+    return phys, recs
+
+
+def seq_lines(s, recs):
+    """model input lines for the calls the model covers: {label: (line, rec, part index, scale)}"""
+    out = {}
+    for rec in recs:
+        c, ci = rec["call"], rec["ci"]
+        m = s["mills"][s["systems"][c["sys"]]["mill"]]
+        op = c["op"]
+        rf = recipe_fields(m)
+        v = rec["vals"][0]
+        rmax = float(np.max(np.abs(m["rot"])))
+        amax = float(np.max(np.abs(v))) if (v.size and v.dtype.kind == "f") else 0.0
+        smax = float(np.max(np.abs(m["shift"]))) if op in ("coords", "coordsR", "system", "minisystem") else 0.0
+        scale = 1.0 + 9.0 * (amax + smax) * max(1.0, rmax) ** 2
+        lab = f"seq{ci}:{op}"
+        if op == "coords":
+            out[lab] = ("coords|0|" + rf + "|" + enc(v), rec, 0, scale)
+        elif op == "coordsR":
+            out[lab] = ("coords|1|" + rf + "|" + enc(v), rec, 0, scale)
+        elif op in ("system", "minisystem"):
+            out[lab] = (f"coords|{1 if c.get('reverse') else 0}|" + rf + "|" + enc(v), rec, 0, scale)
+            if op == "system":
+                out[lab + ":elez"] = ("atoms|" + " ".join(str(int(i)) for i in m["map"]) + "|" + " ".join(str(int(a)) for a in rec["vals"][3]), rec, 3, 0.0)
+        elif op == "grad":
+            out[lab] = ("grad|" + rf + "|" + enc(v), rec, 0, scale)
+        elif op == "hess":
+            out[lab] = ("hess|" + rf + "|" + enc(v), rec, 0, scale)
+        elif op == "vec":
+            out[lab] = ("vec|" + rf + "|" + enc(v), rec, 0, scale)
+        elif op == "vecgrad":
+            out[lab] = ("vecgrad|" + rf + "|" + enc(v), rec, 0, scale)
+        elif op == "atoms" and c.get("dtype", "int") == "int":
+            out[lab] = ("atoms|" + " ".join(str(int(i)) for i in m["map"]) + "|" + " ".join(str(int(a)) for a in v), rec, 0, 0.0)
+    return out
+
+
+def describe(c):
+    extra = "".join(f" {k}={c[k]}" for k in ("energy", "dtype", "reverse") if k in c)
+    return f"{c['op']}(system {c['sys']}, layout {c['layout']}{extra}{', buffer reused' if c.get('reuse') else ''})"
+
+
+def oracle_seq(s, phys, recs):
+    """The property on the results of a whole call sequence, each result being what the caller holds when the sequence is over.
+    Returns a list of Findings (case to be filled in by the caller)."""
+    F = []
+    V = lambda kind, obs, exp, detail: F.append(Finding(kind, None, observed=obs, expected=exp, detail=detail))  # noqa
+    by_sys = {}
+    for rec in recs:
+        c = rec["call"]
+        if rec["err"] is not None:
+            V("oracle:raises", "err " + rec["err"], "array", f"call #{rec['ci']} {describe(c)} raised on an input inside the quantifier")
+            continue
+        if rec["arg_mutated"] is not None:
+            V("oracle:argument_mutated", f"argument {rec['arg_mutated']}", "unchanged", f"call #{rec['ci']} {describe(c)} modified the caller's array: the quantity it was handed is no longer the quantity at the original geometry")
+        if c.get("then") != "scribble":
+            for pi, (p, cp) in enumerate(zip(rec["parts"], rec["copies"])):
+                if not same_bits(p, cp):
+                    later = [describe(r2["call"]) for r2 in recs if r2["ci"] > rec["ci"]]
+                    V("oracle:result_overwritten", np.asarray(p).ravel()[:6].tolist(), np.asarray(cp).ravel()[:6].tolist(),
+                      f"the array returned by call #{rec['ci']} {describe(c)} (part {pi}) no longer holds what it held when it was returned; calls made since: {later[:6]}"
+                      + (" (the returned array shares memory with the argument buffer, which the caller has refilled since)" if rec["aliases_arg"] else ""))
+        by_sys.setdefault(c["sys"], []).append(rec)
+    for k, rs in sorted(by_sys.items()):
+        t = s["systems"][k]
+        m = s["mills"][t["mill"]]
+        perm = [int(i) for i in m["map"]]
+        n = t["n"]
+        x, E, (mu, dmu) = phys[k]
+        # values as the caller holds them at the end (for scribbled results: as they were returned)
+        val = lambda rec, pi=0: np.asarray(rec["copies"][pi] if rec["call"].get("then") == "scribble" else rec["parts"][pi])  # noqa
+        # --- per-atom arrays follow the atom map of the recipe
+        for rec in rs:
+            c = rec["call"]
+            if c["op"] == "atoms":
+                pairs = [(0, 0)]
+            elif c["op"] == "system":
+                pairs = [(1, 1), (2, 2), (3, 3), (4, 4)]
+            elif c["op"] == "minisystem":
+                pairs = [(1, 1)]
+            else:
+                continue
+            if c["op"] != "atoms" and len(rec["parts"]) != len(rec["vals"]):
+                V("oracle:atoms_same_map", len(rec["parts"]), len(rec["vals"]), f"call #{rec['ci']} {describe(c)}: wrong number of returned arrays")
+                continue
+            for ai, pi in pairs:
+                want = rec["vals"][ai][perm]
+                got = val(rec, pi)
+                if got.shape != want.shape or not np.array_equal(got, want):
+                    V("oracle:atoms_same_map", got.tolist(), want.tolist(), f"call #{rec['ci']} {describe(c)}: per-atom array {ai} is not a[atommap]")
+        # --- aligned geometries of this system (every forward entry point, every layout)
+        geoms = []
+        D0 = np.sqrt(((x[:, None] - x[None]) ** 2).sum(-1))
+        for rec in rs:
+            c = rec["call"]
+            if c["op"] == "coords" or (c["op"] in ("system", "minisystem") and not c.get("reverse")):
+                xa = val(rec, 0)
+                if xa.shape != (n, 3) or xa.dtype.kind != "f":
+                    V("oracle:atoms_same_map", list(xa.shape), [n, 3], f"call #{rec['ci']} {describe(c)}: aligned geometry has the wrong shape")
+                    continue
+                D1 = np.sqrt(((xa[:, None] - xa[None]) ** 2).sum(-1))
+                ok, err = close(D1, D0[np.ix_(perm, perm)])
+                if not ok:
+                    V("oracle:atoms_same_map", err, 0.0, f"call #{rec['ci']} {describe(c)}: interatomic distances of the aligned geometry are not those of the original permuted by atommap")
+                    continue
+                geoms.append((rec, xa))
+        # --- the same values through the same method of the same recipe: one result (whatever the layout, the entry point, the moment)
+        groups = {}
+        for rec in rs:
+            c = rec["call"]
+            if c["op"] in ("coords", "system", "minisystem"):
+                key = ("coords", bool(c.get("reverse")))
+            elif c["op"] == "coordsR":
+                key = ("coords", True)
+            elif c["op"] in ("grad", "hess"):
+                key = (c["op"], c["energy"])
+            elif c["op"] in ("vec", "vecgrad"):
+                key = (c["op"],)
+            else:
+                continue
+            groups.setdefault(key, []).append(rec)
+        for key, g in groups.items():
+            r0 = g[0]
+            for r1 in g[1:]:
+                ok, err = close(val(r1), val(r0))
+                if not ok:
+                    V("oracle:call_context_dependence", err, 0.0,
+                      f"the same values gave different results: call #{r0['ci']} {describe(r0['call'])} vs call #{r1['ci']} {describe(r1['call'])} (recipe {t['mill']}, mirror={m['mirror']})")
+        # --- covariance, judged at every aligned geometry obtained for this system
+        seen = []
+        for grec, xa in geoms:
+            if any(np.array_equal(xa, y) for y in seen):
+                continue
+            seen.append(xa)
+            at = f"aligned geometry from call #{grec['ci']} {describe(grec['call'])}"
+            E2 = energies(t, xa, perm)
+            fld2 = None
+            for rec in rs:
+                c = rec["call"]
+                if c["op"] == "grad":
+                    ok, err = close(val(rec), E2[c["energy"]][0])
+                    if not ok:
+                        V("oracle:gradient_covariance", err, 0.0, f"{c['energy']}: result of call #{rec['ci']} {describe(c)} != grad E' at the {at} (mirror={m['mirror']})")
+                elif c["op"] == "hess":
+                    ok, err = close(val(rec), E2[c["energy"]][1])
+                    if not ok:
+                        V("oracle:hessian_covariance", err, 0.0, f"{c['energy']}: result of call #{rec['ci']} {describe(c)} != Hess E' at the {at} (mirror={m['mirror']})")
+                elif c["op"] in ("vec", "vecgrad") and not m["mirror"]:
+                    if fld2 is None:
+                        fld2 = field(t, xa, perm)
+                    if c["op"] == "vec":
+                        ok, err = close(val(rec), fld2[0])
+                        if not ok:
+                            V("oracle:vector_covariance", err, 0.0, f"result of call #{rec['ci']} {describe(c)} != mu' at the {at}")
+                    else:
+                        ok, err = close(val(rec), fld2[1])
+                        if not ok:
+                            V("oracle:vector_gradient_covariance", err, 0.0, f"result of call #{rec['ci']} {describe(c)} != d mu' at the {at}")
+    return F
+
+
+def shrink_seq(s, kind):
+    """fewest calls that still show a violation of this kind (the full sequence is kept beside it in the case)"""
+    from common import shrink_list
+
+    def fails(calls):
+        s2 = dict(s, calls=calls)
+        try:
+            phys, recs = run_seq(s2)
+            return any(f.kind == kind for f in oracle_seq(s2, phys, recs))
+        except Exception:  # noqa
+            return False
+
+    try:
+        calls = shrink_list(list(s["calls"]), fails, max_steps=120)
+    except Exception:  # noqa
+        return None
+    if len(calls) == len(s["calls"]):
+        return None
+    # loosen what the remaining calls do not need: buffer reuse, overwriting by the caller, exotic layouts
+    for i in range(len(calls)):
+        for k, v in (("reuse", False), ("then", "hold"), ("layout", "C"), ("alayout", "C")):
+            if k in calls[i] and calls[i][k] != v:
+                cand = [dict(c) for c in calls]
+                cand[i][k] = v
+                if fails(cand):
+                    calls = cand
+    return dict(s, calls=calls)
+
+
+def process_seq(ctx, out: Outcome, s, phys, recs, labelled, model_lines):
+    out.evaluations += 1
+    exact = bool(s.get("dyadic"))
+    for (lab, (line, rec, pi, scale)), ml in zip(labelled.items(), model_lines):
+        out.count("op:seq:" + rec["call"]["op"])
+        if rec["err"] is not None:
+            impl = ("err", rec["err"])
+        else:
+            impl = rec["copies"][pi]
+            impl = impl if impl.dtype.kind in "iu" else np.asarray(impl, dtype=float)
+        compare(out, s, lab, impl, ml, scale, exact)
+    found = oracle_seq(s, phys, recs)
+    found.sort(key=lambda f: f.kind == "oracle:call_context_dependence")  # stable: the clauses the statement names come first
+    if found:
+        case = {"scenario": s}
+        small = shrink_seq(s, found[0].kind)
+        if small is not None:
+            p2, r2 = run_seq(small)
+            f2 = [f for f in oracle_seq(small, p2, r2)]
+            if any(f.kind == found[0].kind for f in f2):
+                f2.sort(key=lambda f: f.kind != found[0].kind)
+                found = f2
+                case = {"scenario": small, "full": s}
+        for f in found:
+            f.case = case
+            out.violations.append(f)
+    for rec in recs:
+        c = rec["call"]
+        out.count("seq:layout:" + c["layout"])
+        out.count("seq:then:" + c.get("then", "hold"))
+        if c.get("reuse"):
+            out.count("seq:argument_buffer_reused")
+    out.count("seq:calls", len(recs))
+    out.count("seq:recipes", len(s["mills"]))
+    out.count("seq:systems", len(s["systems"]))
+    for m in s["mills"]:
+        out.count("seq:mirror:%s" % m["mirror"])
+        out.count("seq:recipe_form:rot=%s" % m.get("rot_form", "C"))
+    out.nontrivial(("seq", tuple(m["n"] for m in s["mills"]), tuple(tuple(m["map"]) for m in s["mills"]),
+                    hash(json.dumps(s["calls"], sort_keys=True)) & 0xFFFFFFF))
+    if len(recs) <= 8:
+        out.sample({"call_sequence": [describe(r["call"]) + " -> " + r["call"].get("then", "hold") for r in recs],
+                    "recipes": [{k: m[k] for k in ("n", "map", "mirror", "rot_form", "shift_form", "map_form")} for m in s["mills"]]}, limit=8)
 
 
 def process(ctx, out: Outcome, scenarios):
@@ -548,7 +1131,12 @@ def process(ctx, out: Outcome, scenarios):
     prepared = []
     all_lines = []
     for s in scenarios:
-        if s["type"] == "blk":
+        if s["type"] == "seq":
+            phys, recs = run_seq(s)
+            labelled = seq_lines(s, recs)
+            prepared.append((s, (phys, recs, labelled), None, {lab: v[0] for lab, v in labelled.items()}, None))
+            lines = prepared[-1][3]
+        elif s["type"] == "blk":
             a, b, res, lines = impl_blk(s)
             prepared.append((s, (a, b), res, lines, None))
         else:
@@ -560,6 +1148,10 @@ def process(ctx, out: Outcome, scenarios):
         model = ctx.run_model(DRIVER, all_lines)
     k = 0
     for s, aux, res, lines, scales in prepared:
+        if s["type"] == "seq":
+            process_seq(ctx, out, s, aux[0], aux[1], aux[2], model[k : k + len(lines)])
+            k += len(lines)
+            continue
         out.evaluations += 1
         for op in lines:
             ml = model[k]
@@ -603,6 +1195,12 @@ def run(ctx: Ctx) -> Outcome:
         scenarios.append(gen_scenario(rng))
     for _ in range(ctx.scale(150, 1200)):
         scenarios.append(gen_blk(rng))
+    # call sequences (drawn after the single-call streams, whose cases per seed are unchanged)
+    for mirror in (False, True):
+        for dy in (False, True):
+            scenarios.append(gen_seq(rng, n=rng.choice([2, 3, 4]), dyadic=dy, sweep_all=True, mirror=mirror))
+    for _ in range(ctx.scale(140, 1400)):
+        scenarios.append(gen_seq(rng))
     B = 100
     for i in range(0, len(scenarios), B):
         process(ctx, out, scenarios[i : i + B])
@@ -615,4 +1213,7 @@ def replay(ctx: Ctx, case) -> Outcome:
     out = Outcome()
     s = case["scenario"] if isinstance(case, dict) and "scenario" in case else case
     process(ctx, out, [s])
+    if not out.violations and isinstance(case, dict) and case.get("full"):
+        # the shortened call sequence did not fail in this (fresh) process: run the sequence as it was generated
+        process(ctx, out, [case["full"]])
     return out
